@@ -292,6 +292,7 @@ def set_member(v, s):
 # ------------------------------------------------------------------- executor --
 class C02Executor(Executor):
     def __init__(self, *a, **kw):
+        self.unknown_items_are_str = kw.pop("unknown_items_are_str", False)
         super().__init__(*a, **kw)
         self.extra_axioms: list = []
 
@@ -299,6 +300,7 @@ class C02Executor(Executor):
         sub = type(self)(module, self.reg, self.uni)
         sub.refs = self.refs
         sub.extra_axioms = self.extra_axioms
+        sub.unknown_items_are_str = self.unknown_items_are_str
         return sub
 
     # -- VCs: labelled conjunctions + definitional unfolding + global axioms ---------
@@ -501,8 +503,14 @@ class C02Executor(Executor):
                 d = slist_of(st, obj)
             else:
                 return super().list_method(st, obj, name, args, kwargs, node)
+        if name == "clear" and not args:
+            self.note_store(st, obj.ref, node)
+            st.wobj(obj.ref).data = dict(n=z3.IntVal(0), cat=lit(""), lead=lit(""))
+            return [(st, NONE)]
         if name == "append" and len(args) == 1:
             x = args[0]
+            if isinstance(x, VUnk) and getattr(self, "unknown_items_are_str", False):
+                x = VStr(z3.String(fresh_name("item")))          # DT-TYPED: an unknown item of a list[str] is some string
             if not isinstance(x, VStr):
                 raise Unsupported(f"{self.loc(node)} append of {x!r} to a str list")
             self.note_store(st, obj.ref, node)
@@ -563,6 +571,39 @@ class C02Executor(Executor):
                             if isinstance(v, VRef) and v.ref == ref:
                                 return True
         return False
+
+    def s_While(self, s, st):
+        """`LoopSpec.step(start_ctx, end_ctx) -> Conj`: a two-state property of ONE iteration started in an arbitrary
+        state (everything the body assigns is havocked; no invariant is assumed, none is needed after the loop)."""
+        from pyvc.symex import LoopCtx, Outcome
+        spec = self.loop_spec(s)
+        step = getattr(spec, "step", None) if spec is not None else None
+        if step is None:
+            return super().s_While(s, st)
+        label = spec.label or "loop"
+        entry = st.fork()
+        body_st = st.fork()
+        self.havoc_loop_state(body_st, s.body, spec)
+        after0 = body_st.fork()
+        after0.pc = list(st.pc)
+        outs = []
+        for (s2, g) in self.ev(s.test, body_st):
+            for (s3, b) in self.fork_truth(s2, g):
+                if not b:
+                    continue
+                start = s3.fork()
+                for o in self.exec_block(s.body, s3):
+                    if o.kind in ("fall", "continue"):
+                        self.add_vc("step", label, o.st.pc, step(LoopCtx(self, start, None, entry), LoopCtx(self, o.st, None, entry)), loc=self.loc(s))
+                    elif o.kind == "break":
+                        outs.append(Outcome("fall", o.st))
+                    else:
+                        outs.append(o)
+        for (s2, g) in self.ev(s.test, after0):
+            for (s3, b) in self.fork_truth(s2, g):
+                if not b:
+                    outs.append(Outcome("fall", s3))
+        return outs
 
     def apply_contract(self, st, c, args, kwargs, node):
         names = [p[0] for p in c.params]
